@@ -25,7 +25,7 @@ def nt_len2(f, st):
     return int(st.get("len", "0")) >= 2
 
 
-RESULT_CMP = ("pred", "spec", "acc", "stream")
+RESULT_CMP = ("pred", "spec", "acc", "stream", "evd", "pan")
 
 
 def result_prop(sweep, rule, expl, extra_tb=(), nontrivial=nt_parallel, cmp=RESULT_CMP):
